@@ -15,12 +15,16 @@ verif = os.environ.get("PIKEVC_VERIF", "/verif")
 repo = os.environ.get("PIKEVC_REPO", "/repo")
 outdir = os.environ.get("PIKEVC_OUT", os.path.join(verif, "out"))
 BOUNDED = {
-    "C01": "TestBoundedLRU", "C06": "TestBoundedLRU", "C11": "TestBoundedLRU", "C18": "TestBoundedLRU",
-    "C05": "TestBoundedCodecs|TestBoundedHeaderModel", "C12": "TestBoundedCodecs", "C13": "TestBoundedCodecs",
+    "C01": "TestBoundedLRU", "C06": "TestBoundedLRU", "C18": "TestBoundedLRU",
+    "C11": "TestBoundedLRU|TestBoundedNewDispatcher",
+    "C07": "TestBoundedHitForPassTTL",
+    "C05": "TestBoundedCodecs|TestBoundedHeaderModel|TestBoundedDecisionTable", "C12": "TestBoundedCodecs",
+    "C13": "TestBoundedCodecs|TestBoundedDecisionTable",
     "C15": "TestBoundedAddQuery|TestBoundedMergeHeader|TestBoundedRewriter|TestBoundedHeaderModel",
-    "C14": "TestBoundedSortLocations", "C03": "TestBoundedHeaderModel",
-    "C09": "TestBoundedJSONHeader|TestBoundedBufferAlgebra|TestBoundedRegexpString",
-    "C08": "TestBoundedJSONHeader|TestBoundedBufferAlgebra", "C10": "TestBoundedBufferAlgebra",
+    "C14": "TestBoundedSortLocations|TestBoundedRouting",
+    "C03": "TestBoundedHeaderModel|TestBoundedRequestIsPass|TestBoundedCacheMaxAge",
+    "C09": "TestBoundedJSONHeader|TestBoundedBufferAlgebra|TestBoundedRegexpString|TestBoundedFormat",
+    "C08": "TestBoundedJSONHeader|TestBoundedBufferAlgebra|TestBoundedFormat", "C10": "TestBoundedBufferAlgebra|TestBoundedFormat",
     "C17": "TestBoundedYAML",
 }
 # quick tier: only the stand-ins of TRUSTED pike functions (where the contracts are blind), a few seconds
